@@ -22,7 +22,7 @@ from __future__ import annotations
 import collections, copy, importlib, random, sys
 from .ref import opsem
 
-ADOPT_OPS = {59}          # outcome adopted from the log (see DESIGN: MASV, CHECK_TRANSFER)
+ADOPT_OPS = set()         # (no instruction's outcome is adopted from the log any more: CHECK_TRANSFER runs on the reference contract)
 MAX_ALLOC = 1 << 22           # token_bytes beyond this is refused (and recorded)
 
 
